@@ -3,7 +3,10 @@ PROP = {'kani_groups': ['hk_batcher'],
  'technique': 'bounded model checking (Kani/CBMC) of one-step inductive harnesses over the real emit_batcher code: '
               'when_flushed from an arbitrary state, the Watchers kernel, and one full receiver-loop iteration '
               '(de-asynced exec) from an arbitrary state; composition over histories is a written induction',
- 'functions': ['Sender::when_flushed, Sender::send (overflow keeps the watchers parked on the pending batch), Watchers::{new, push_on_flush, push_on_take, notify_on_flush, notify_on_take}, '
+ 'functions': ['emit_batcher::sync::{blocking_flush, Trigger::{new, trigger, wait_timeout}} (c07c08_*_s_blocking_flush_*: true only if the '
+               'flush callback fired, and then true; false only on expiry; never parks longer than what is left of the timeout; parks '
+               'without holding the state lock)',
+               'Sender::when_flushed, Sender::send (overflow keeps the watchers parked on the pending batch), Watchers::{new, push_on_flush, push_on_take, notify_on_flush, notify_on_take}, '
                'Batch::new/default',
                'Receiver::exec (one loop iteration: swap under the lock, take-notify, attempts and retry waits, '
                'flush-notify)'],
@@ -11,16 +14,19 @@ PROP = {'kani_groups': ['hk_batcher'],
            'iteration: 0..=2 (thorough 3) items, 1 (thorough 0..2) watchers of each kind travelling with the batch, '
            'retry budget 0/1 (thorough 2), all processor outcome sequences incl. panics',
  'outside': 'CANNOT BE ENCODED (Kani executes one thread, no OS): batcher/src/tokio.rs and web.rs entirely; the '
-            'blocking wrappers of batcher/src/sync.rs (Trigger/condvar wait_timeout, Instant, thread spawn/join, its '
-            'block_on); wall-clock time; real unwinding; the std mutex itself (assumed). The multi-step composition '
+            'real condition variable, Instant, thread spawn/join of batcher/src/sync.rs (its blocking wrappers run on '
+            'stand-ins, see stubs); wall-clock time; real unwinding; the std mutex itself (assumed). The multi-step composition '
             '(any number of senders, any interleaving, histories of any length) is a WRITTEN induction over the '
             'solver-checked one-step obligations (harness/hk_batcher/src/lib.rs), not a solver result; a bounded '
-            'multi-step schedule harness did not fit CBMC (20 min symex, no verdict). Also outside: blocking_flush / '
-            'tokio flush (oneshot, condvar, timeouts) — only the callback they register is covered; the end-to-end '
+            'multi-step schedule harness did not fit CBMC (20 min symex, no verdict). Also outside: tokio flush '
+            '(oneshot, timeouts) — only the callback it registers is covered; blocking_flush beyond 2 wake-ups per call; the end-to-end '
             'clause through the emitters (rolling files written and synced, OTLP requests answered) — see C10/C12; a '
             'flush requested after the receiver was torn down (the code then reports completion at once; the '
             'property speaks about a live receiver)',
- 'stubs': ['batcher:mutex — std::sync::Mutex in batcher/src/lib.rs -> single-owner cell with the same lock() API, an '
+ 'stubs': ["batcher:sync-* — batcher/src/sync.rs: std::sync::{Condvar, Mutex} and std::time::Instant -> stand-ins: Instant reads a harness clock (whole seconds); Condvar::wait_timeout(guard, dur) releases the guard, runs the harness environment step (time passes; the batch carrying the parked callbacks may finish, which runs them) and returns woken / timed out (spurious wake-ups included); assumed of the std condvar: a wait reported as timed out lasted at least dur; the Trigger's own mutex is a single-owner cell",
+           'batcher:send-or-wait-pub — visibility only: the private Sender::send_or_wait is made pub in the scratch tree (harness module s_sow)',
+           "the mutex stand-in also counts the guards alive (HELD): every harness callback standing for user code (flush / empty callbacks, samplers, processors, waits, the condvar environment step) asserts HELD == 0 — user code never runs inside the channel's critical section",
+           'batcher:mutex — std::sync::Mutex in batcher/src/lib.rs -> single-owner cell with the same lock() API, an '
            'acquisition counter and a hook called before every acquisition; asserts the lock is never re-acquired '
            "while held. Mutual exclusion itself is std's contract and is ASSUMED",
            'batcher:catch-unwind — std::panic::catch_unwind -> panic plan: the i-th guarded call either runs its '
